@@ -62,12 +62,14 @@ PLAIN: Dict[str, Tuple[Any, Any, Any]] = {
 MISSING = ("<missing key>",)   # sentinel: the record has no 'v' key
 EXTRA = ("<extra key>",)       # sentinel: the record has a plain 'v' plus an unknown field 'zz'
 EMPTY = ("<empty batch>",)     # sentinel: the batch under test has no records at all
+EXTRA_NOV = ("<extra key instead of v>",)  # sentinel: the record omits 'v' and carries an unknown field 'zz' (a misspelt name)
 
 # name, value class, supplied value, representative of its class (used in S2)
 _VALUES: List[Tuple[str, str, Any, bool]] = [
     ("none", "none", None, True),
     ("missing_key", "missing_key", MISSING, True),
     ("extra_record_field", "extra_record_field", EXTRA, True),
+    ("extra_field_instead_of_v", "extra_record_field_v_missing", EXTRA_NOV, True),
     ("empty_batch", "empty_batch", EMPTY, True),
     ("bool_true", "bool", True, True),
     ("int_1", "int_small", 1, False),
@@ -320,6 +322,8 @@ def test_records(t: str, vname: str) -> List[Dict[str, Any]]:
         return [good, {"k": 201}]
     if x is EXTRA:
         return [good, {"k": 201, "v": PLAIN[t][1], "zz": 1}]
+    if x is EXTRA_NOV:
+        return [good, {"k": 201, "zz": 1}]
     return [good, {"k": 201, "v": x}]
 
 
